@@ -48,6 +48,27 @@ fn tower_ops(tier: &str, rng: &mut Prng, ops: &mut Vec<Case>) {
             ops.push(Case::new(format!("lift_step {} {} {} {}", ints(&f), ints(&g), ints(&cf), ints(&cg))));
         }
     }
+    // the product as the code computes it: vector_karatsuba on every length it accepts (n <= 8, or even at every level
+    // above 8: beyond that the real function indexes out of bounds) and reduce_by_cyclotomic on arbitrary lengths
+    let mut lens: Vec<usize> = (1..=8).collect();
+    lens.extend([10, 12, 14, 16, 20, 24, 28, 32, 40, 48, 56, 64, 96, 128]);
+    if tier == "thorough" {
+        lens.extend([80, 112, 160, 192, 224, 256, 512, 1024]);
+    }
+    for &n in &lens {
+        for r in 0..(if tier == "thorough" { 6 } else { 2 }) {
+            let lim: i64 = if r == 0 { 1 } else { 1 << 20 };
+            let a: Vec<i64> = (0..n).map(|_| rng.range(-lim, lim)).collect();
+            let b: Vec<i64> = (0..n).map(|_| rng.range(-lim, lim)).collect();
+            ops.push(Case::new(format!("karatsuba {} {}", ints(&a), ints(&b))));
+        }
+    }
+    for n in [1usize, 2, 3, 4, 8, 16, 64] {
+        for len in [0usize, 1, n - 1, n, n + 1, 2 * n - 1, 2 * n, 2 * n + 1, 3 * n + 2, 5 * n] {
+            let p: Vec<i64> = (0..len).map(|_| rng.range(-1000, 1000)).collect();
+            ops.push(Case::new(format!("reduce_cyc {n} {}", ints(&p))));
+        }
+    }
 }
 
 /// the n = 1 case of `ntru_solve` = the extended Euclid loop `xgcd` on big integers: small and signed pairs, zeros,
@@ -167,6 +188,36 @@ pub fn oracle_c04(op: &[&str], out: &str) -> Verdict {
                 return Verdict::Fail(format!("tree leaves outside [sigma_min, sigma_max]: min {lmin}, max {lmax}"));
             }
             Verdict::Pass
+        }
+        "karatsuba" => {
+            // the full product, coefficient by coefficient (schoolbook over i128)
+            let (a, b): (Vec<i128>, Vec<i128>) = (parse_ints(op[1]), parse_ints(op[2]));
+            let got: Vec<i128> = parse_ints(out);
+            let mut want = vec![0i128; a.len() + b.len() - 1];
+            for (i, x) in a.iter().enumerate() {
+                for (j, y) in b.iter().enumerate() {
+                    want[i + j] += x * y;
+                }
+            }
+            if got == want {
+                Verdict::Pass
+            } else {
+                Verdict::Fail("karatsuba(a, b) is not the product a*b".into())
+            }
+        }
+        "reduce_cyc" => {
+            let n: usize = op[1].parse().unwrap();
+            let p: Vec<i128> = parse_ints(op[2]);
+            let got: Vec<i128> = parse_ints(out);
+            let mut want = vec![0i128; n];
+            for (i, c) in p.iter().enumerate() {
+                want[i % n] += if (i / n) % 2 == 0 { *c } else { -*c };
+            }
+            if got == want {
+                Verdict::Pass
+            } else {
+                Verdict::Fail("reduce_by_cyclotomic(p, n) is not p mod X^n+1".into())
+            }
         }
         "ntru_base" => {
             // a returned pair solves a*G - b*F = q over Z; a refusal only makes the caller draw again (it is compared
